@@ -698,7 +698,7 @@ pub fn bad_stmt(rng: &mut Rng) -> Stmt {
             };
         }
         5 => {
-            kw = rng.pick(&["foo", "Sq", "TT", "BXX", "R", "obj", "endstream", "d2", "Do0", "re*", "T", "EI", "ID"]).to_string();
+            kw = rng.pick(&["foo", "Sq", "TT", "BXX", "Rx", "obj", "endstream", "d2", "Do0", "re*", "T", "EI", "ID"]).to_string();
         }
         6 => {
             let (k, v) = *rng.pick(&[("j", 3), ("J", -1), ("Tr", 8), ("Tr", -1), ("j", 1000)]);
